@@ -25,9 +25,11 @@ def main():
     if "--checks" in sys.argv:
         checks = sys.argv[sys.argv.index("--checks") + 1].split(",")
     n = os.path.basename(seed)
+    if "--as" in sys.argv:  # name under /verif/seeded (round 2: <PROP>-3, <PROP>-4)
+        n = sys.argv[sys.argv.index("--as") + 1]
     patch = os.path.join(seed, "patch.diff")
     demo = os.path.join(seed, "demo_test.go")
-    meta = {"property": prop, "seed": n, "source": "fresh sub-agent given only the property text and a scratch worktree", "at": time.strftime("%Y-%m-%dT%H:%M:%SZ", time.gmtime())}
+    meta = {"property": prop, "seed": n, "source": "fresh sub-agent given only the property text and a scratch worktree", "round": 2 if "--as" in sys.argv else 1, "at": time.strftime("%Y-%m-%dT%H:%M:%SZ", time.gmtime())}
     wt = "/tmp/seedwt-%s-%s" % (prop, n)
     sh("git -C /repo worktree remove --force %s" % wt)
     rc, out = sh("git -C /repo worktree add --detach %s HEAD" % wt)
